@@ -2,7 +2,7 @@
 from hypothesis import strategies as st
 from ..runner import Outcome
 from .. import ops as O, eqv
-from ..hist import HistoryRun, bundle_sig, judge_state_diff, undo_raised_sig
+from ..hist import HistoryRun, bundle_sig, judge_state_diff, undo_raised_sig, made_formula_then_removed
 
 ID = 'C01'
 LEVEL = 'exploration'
@@ -51,11 +51,15 @@ def run_case(case):
     r = hr.doc.apply([['ApplyUndoActions', undo]])
     sig = bundle_sig(uas)
     if not r.ok:
-      out.fail('C01:undo-raised:' + undo_raised_sig(hr.doc, uas, r.error), '%s undo of %r raised %r' % (how, uas, r.error))
+      out.fail('C01:undo-raised:' + undo_raised_sig(hr.doc, uas, r.error, undo), '%s undo of %r raised %r' % (how, uas, r.error))
       return None
     now = hr.doc.snapshot()
     bad, labels = judge_state_diff(before, now, hr.doc.log, log_pos)
     out.cls(*labels)
+    if bad and bad[0] == 'cells:usertable.data' and made_formula_then_removed(uas, bad[1]):
+      out.fail('C01:undo-mismatch:data-column-made-formula-then-rows-removed-in-same-bundle',
+               'state after %s undo of %r differs from the state before it' % (how, uas), bad[1])
+      return None
     if bad:
       out.fail('C01:undo-mismatch:%s' % (bad[0] if bad[0] in ROOT_CAUSE_SUFFIXES else '%s:%s' % (sig, bad[0])),
                'state after %s undo of %r differs from the state before it' % (how, uas), bad[1])
